@@ -107,14 +107,15 @@ def make_illegal(r, op):
 class SerialiseFamily(ScenarioFamily):
     chunk = 30
 
-    def __init__(self, name, ex, nq, nt):
+    def __init__(self, name, ex, nq, nt, modes=None):
         super().__init__("C03", name, nq, nt)
         self.ex = ex
+        self.modes = modes or ["plain", "plain", "plain", "double-assign", "goaway", "forward"]
 
     def generate(self, seed, index, tier):
         r = gen.mk_rng(seed, "c03")
-        mode = ["plain", "plain", "plain", "double-assign", "goaway", "forward"][index % 6]
-        h2 = mode == "goaway" or (mode == "plain" and r.random() < 0.45)
+        mode = self.modes[index % len(self.modes)]
+        h2 = mode in ("goaway", "concurrent") or (mode == "plain" and r.random() < 0.45)
         tls = h2 or mode == "double-assign" or r.random() < 0.2
         if h2 and mode == "plain" and r.random() < 0.3:
             tls = False
@@ -173,6 +174,22 @@ class SerialiseFamily(ScenarioFamily):
                     make_illegal(r, op)
                 ops.append(op)
             callers = [{"ops": ops}]
+        elif mode == "concurrent":
+            # 2-4 callers with 1-3 requests each, with and without bodies, multiplexed on
+            # one HTTP/2 connection: whatever another stream does between two steps of a
+            # request, each request is serialised as its own caller gave it
+            pool["max_connections"] = 1
+            ep["h2"]["settings"] = {"max_concurrent_streams": r.choice([2, 3, 100])}
+            ep["h2"]["wu"] = "eager"
+            for ci in range(r.randint(2, 4)):
+                ops = []
+                for oi in range(r.randint(1, 3)):
+                    for _ in range(50):
+                        op = gen_request(r, ci * 10 + oi, scheme, host, True)
+                        if op.get("body") is None or op["body"]["len"] <= 3000:
+                            break
+                    ops.append(op)
+                callers.append({"start": r.choice([0.0, 0.0, 0.001, 0.01]), "ops": ops})
         elif mode == "double-assign":
             # http2 enabled, server selects HTTP/1.1: the requests assigned to the
             # connecting connection beyond the first are transparently re-queued
@@ -406,4 +423,5 @@ register("C03", {
                     "surrounding whitespace; the grey zone (obs-text, surrounding whitespace) is "
                     "not generated"],
 }, [SerialiseFamily("serialise-async", "asyncio", 3000, 60000),
-    SerialiseFamily("serialise-threads", "threads", 600, 12000)])
+    SerialiseFamily("serialise-threads", "threads", 600, 12000),
+    SerialiseFamily("serialise-concurrent-async", "asyncio", 1200, 24000, modes=["concurrent"])])
